@@ -139,8 +139,10 @@ def scn_geojson(c, ci):
     k, feature, cell = _members_are_cells_in_order(c, feats, polys, 'features', cell_of)
     g = feature.kwargs['geometry']
     prec = g.kwargs.get('precision', 6 if len(g.args) < 2 else g.args[1])
-    c.check('the polygon coordinates are stored without rounding (geojson precision >= 17 significant decimals)',
-            isinstance(prec, int) and prec >= 17)
+    # GEOJSON-POLYGON: coordinates are rounded to `precision` decimal places; that is the identity for every double of magnitude >= 1e-23
+    # (or zero) only when precision >= 40 (17 significant digits + 23 leading zeros); 6 (the default) and 17 are not enough (natively shown)
+    c.check('the polygon coordinates are stored without rounding (geojson precision of at least 40 decimal places)',
+            isinstance(prec, int) and prec >= 40)
     props = feature.kwargs.get('properties')
     c.check('properties carry linear_index and index', isinstance(props, dict) and set(props) == {'linear_index', 'index'})
     if not isinstance(props, dict) or set(props) != {'linear_index', 'index'}:
@@ -199,6 +201,9 @@ def _shp_check(c, it, ds, conv, conv_name, target_args, kw):
     p = _poly_of(shapes[0][2])
     c.check('the shape is the polygon of cell k itself', p is not None and s_eq(p.n, k))
     c.check("the stored 'linear_ind' field is the linear index of the cell whose polygon the shape holds", s_eq(stored.get('linear_ind'), k))
+    ftype, fsize, fdec = w.sizes.get('linear_ind', (None, None, None))
+    wide = isinstance(fsize, int) and (fsize >= 19 or mk_bool(zint(k) < 10 ** fsize))
+    c.check('the numeric dbf field is wide enough for this linear index (pyshp cuts wider numbers silently)', wide if not isinstance(fsize, int) or fsize < 19 else True)
     idx = stored.get('index')
     c.check("the stored 'index' field is the JSON text of the native index of that cell",
             isinstance(idx, BytesOf) and idx.what == 'json' and _same_index(c, idx.payload, _native_index(ds, conv_name, k)))
@@ -242,7 +247,9 @@ def scn_wk(c, ci):
             raise PathEnd()
         if fmt == 'wkt':
             rp = s.kw.get('rounding_precision', s.a[0] if s.a else 6)
-            c.check('write_wkt: coordinates are written at full precision (rounding_precision=-1), not rounded to 6 decimals', isinstance(rp, int) and rp == -1)
+            # SHAPELY-TO-WKT: the default (6) rounds; -1 ("full precision") and anything below 20 write at most 16-17 significant digits and
+            # lose the last place of about one double in ten; from 20 decimal places on GEOS writes the shortest exact representation
+            c.check('write_wkt: coordinates are written exactly (rounding_precision >= 20), not rounded', isinstance(rp, int) and rp >= 20)
             c.check('write_wkt: no trimming / dimension options that change coordinates', s.kw.get('output_dimension', 3) >= 2)
         _members_are_cells_in_order(c, s.geom.members, polys, f'{fname} members', lambda m: None if _poly_of(m) is None else _poly_of(m).n)
 
